@@ -20,6 +20,79 @@ type vGenSess struct {
 	hasB     bool
 	o        *vOut
 	focus    string // property id the run is for (VERIF_ARGS focus=Cxx): biases the generator, never restricts soundness
+	lens     []int  // payload lengths of the latest write / data ops (what a reader may find queued)
+	forms    bool   // this session signals some remote candidates through non-canonical address literals
+}
+
+// pickForms decides whether the session uses non-canonical literals (IPv4-mapped / expanded IPv6) for a
+// minority of its signalled remote candidates.  Never for C01 (clean two-agent sessions).
+func (g *vGenSess) pickForms() {
+	switch g.focus {
+	case "C01":
+		g.forms = false
+	case "C06":
+		g.forms = g.r.chance(1, 2)
+	case "":
+		g.forms = g.r.chance(1, 5)
+	default:
+		g.forms = g.r.chance(1, 8)
+	}
+	if g.forms {
+		g.o.stat("sess.forms")
+	}
+}
+
+// fm: suffix of an addremote op = the literal form the candidate is signalled with; mostly canonical (absent).
+// Re-signalling the same candidate draws again, so one address can arrive in both forms, and a mapped-form
+// candidate can arrive before or after a peer-reflexive candidate was discovered for its address.
+func (g *vGenSess) fm() string {
+	if g.forms && g.r.chance(1, 3) {
+		g.o.stat("addremote.form1")
+		return " 1"
+	}
+	return ""
+}
+
+func (g *vGenSess) sawLen(n int) {
+	g.lens = append(g.lens, n)
+	if len(g.lens) > 6 {
+		g.lens = g.lens[1:]
+	}
+}
+
+// readOp: Conn.Read, mostly into a full-size (receiveMTU) buffer; a minority of reads use a caller buffer of
+// exactly / one less than / half the size of a recently sent datagram, 1, 0, or far more than any datagram.
+func (g *vGenSess) readOp(w string) {
+	r := g.r
+	den := 5
+	if g.focus == "C07" {
+		den = 2
+	}
+	if !r.chance(1, den) {
+		g.op("read %s", w)
+		return
+	}
+	l := 100
+	if len(g.lens) > 0 {
+		l = g.lens[r.intn(len(g.lens))]
+	}
+	c := l
+	switch r.intn(7) {
+	case 0, 1:
+		if l > 0 {
+			c = l - 1
+		}
+	case 2:
+		c = 1
+	case 3:
+		c = 0
+	case 4:
+		c = 65536
+	case 5:
+		c = l / 2
+	}
+	g.o.stat("read.cap")
+	g.op("read %s %d", w, c)
 }
 
 func (g *vGenSess) op(format string, a ...any) string {
@@ -131,6 +204,7 @@ func (g *vGenSess) double() {
 	liteB := r.chance(1, 8) && g.focus != "C01" // C01 is about two full agents (lite: C03)
 	renom := r.chance(1, 4) || (g.focus == "C20" && r.chance(3, 4))
 	g.o.stat("sess.double")
+	g.pickForms()
 	g.op("new %s %s", g.cfg("A", false, renom), g.cfg("B", liteB, false))
 	na, nb := 1+r.intn(3), 1+r.intn(3)
 	if liteB {
@@ -182,16 +256,16 @@ func (g *vGenSess) double() {
 		if i == natA {
 			switch r.intn(3) {
 			case 0: // signalled as srflx at the mapped address
-				g.op("addremote B 2 %d %d %d %d", c.net, 16*21, g.prio(), c.addr)
+				g.op("addremote B 2 %d %d %d %d%s", c.net, 16*21, g.prio(), c.addr, g.fm())
 			case 1: // host address (unreachable form) only: B must discover the prflx
-				g.op("addremote B 1 %d %d %d -", c.net, c.addr, c.prio)
+				g.op("addremote B 1 %d %d %d -%s", c.net, c.addr, c.prio, g.fm())
 			default:
 			}
 			return
 		}
-		g.op("addremote B 1 %d %d %d -", c.net, c.addr, c.prio)
+		g.op("addremote B 1 %d %d %d -%s", c.net, c.addr, c.prio, g.fm())
 	}
-	sigB := func(j int) { c := lb[j]; g.op("addremote A 1 %d %d %d -", c.net, c.addr, c.prio) }
+	sigB := func(j int) { c := lb[j]; g.op("addremote A 1 %d %d %d -%s", c.net, c.addr, c.prio, g.fm()) }
 	for i := range la {
 		i := i
 		if !r.chance(1, 8) {
@@ -308,12 +382,14 @@ func (g *vGenSess) double() {
 		}
 	}
 	if r.chance(1, 3) {
-		g.op("write A %d 0", 1+r.intn(1200))
+		wl := 1 + r.intn(1200)
+		g.sawLen(wl)
+		g.op("write A %d 0", wl)
 		for g.inflight > 0 {
 			g.op("deliver 0")
 			g.inflight--
 		}
-		g.op("read B")
+		g.readOp("B")
 	}
 	// liveness phase: silence in steps around the thresholds, traffic resuming at some point
 	if r.chance(1, 2) {
@@ -402,13 +478,17 @@ func (g *vGenSess) randomAction(gen *int, addrA, addrB, net0 int) {
 		if r.chance(1, 6) {
 			sl = 1
 		}
-		g.op("write %s %d %d", w, []int{0, 1, 19, 20, 100, 1200, 8000}[r.intn(7)], sl)
+		wl := []int{0, 1, 19, 20, 100, 1200, 8000}[r.intn(7)]
+		if sl == 0 {
+			g.sawLen(wl)
+		}
+		g.op("write %s %d %d", w, wl, sl)
 	case x < 80:
 		w := "A"
 		if g.hasB && r.chance(1, 2) {
 			w = "B"
 		}
-		g.op("read %s", w)
+		g.readOp(w)
 	case x < 83:
 		w := "A"
 		if g.hasB && r.chance(1, 2) {
@@ -433,7 +513,11 @@ func (g *vGenSess) randomAction(gen *int, addrA, addrB, net0 int) {
 		if r.chance(1, 8) {
 			sl = 1
 		}
-		g.op("data %s %d %d %d %d", w, la, src, 1+r.intn(500), sl)
+		dl := 1 + r.intn(500)
+		if sl == 0 {
+			g.sawLen(dl)
+		}
+		g.op("data %s %d %d %d %d", w, la, src, dl, sl)
 	case x < 95:
 		g.op("renom A %d %d %d", addrA, r.intn(3), r.intn(6))
 	case x < 96:
@@ -449,14 +533,14 @@ func (g *vGenSess) randomAction(gen *int, addrA, addrB, net0 int) {
 			g.op("creds B %s %s", ua, pa)
 			g.op("creds A %s %s", ub, pb)
 			g.op("addlocal A 1 %d %d %d -", net0, addrA, g.prio())
-			g.op("addremote A 1 %d %d %d -", net0, addrB, g.prio())
-			g.op("addremote B 1 %d %d %d -", net0, addrA, g.prio())
+			g.op("addremote A 1 %d %d %d -%s", net0, addrB, g.prio(), g.fm())
+			g.op("addremote B 1 %d %d %d -%s", net0, addrA, g.prio(), g.fm())
 		} else {
 			g.op("addlocal A 1 %d %d %d -", net0, addrA, g.prio())
 			if g.hasB {
 				g.op("creds B %s %s", ua, pa)
 				g.op("creds A uB0 pB0")
-				g.op("addremote A 1 %d %d %d -", net0, addrB, g.prio())
+				g.op("addremote A 1 %d %d %d -%s", net0, addrB, g.prio(), g.fm())
 			}
 		}
 	case x < 97:
@@ -466,7 +550,7 @@ func (g *vGenSess) randomAction(gen *int, addrA, addrB, net0 int) {
 		}
 		g.op("creds %s %s %s", w, []string{"uB0", "uX", "_"}[r.intn(3)], []string{"pB0", "pX", "_"}[r.intn(3)])
 	case x < 98:
-		g.op("addremote A %d %d %d %d %s", 1+r.intn(4), net0, 16*(11+r.intn(4))+r.intn(2), g.prio(), []string{"-", "-", "0", "160"}[r.intn(4)])
+		g.op("addremote A %d %d %d %d %s%s", 1+r.intn(4), net0, 16*(11+r.intn(4))+r.intn(2), g.prio(), []string{"-", "-", "0", "160"}[r.intn(4)], g.fm())
 	default:
 		if r.chance(1, 8) {
 			g.op("adv %d", 2000+r.intn(30000))
@@ -555,6 +639,7 @@ func (g *vGenSess) single() {
 	r := g.r
 	g.o.stat("sess.single")
 	lite := r.chance(1, 5)
+	g.pickForms()
 	g.op("new %s -", g.cfg("A", lite, r.chance(1, 3)))
 	net0 := 0
 	addrA := 16
@@ -565,7 +650,7 @@ func (g *vGenSess) single() {
 	nrem := 1 + r.intn(3)
 	for j := 0; j < nrem; j++ {
 		if r.chance(3, 4) {
-			g.op("addremote A %d %d %d %d %s", []int{1, 1, 2, 4}[r.intn(4)], net0, 16*(11+j), g.prio(), []string{"-", "0"}[r.intn(2)])
+			g.op("addremote A %d %d %d %d %s%s", []int{1, 1, 2, 4}[r.intn(4)], net0, 16*(11+j), g.prio(), []string{"-", "0"}[r.intn(2)], g.fm())
 		}
 	}
 	role := r.intn(2)
@@ -618,6 +703,9 @@ func (g *vGenSess) renomPrflx() {
 	r := g.r
 	g.hasB = true
 	g.o.stat("sess.renomprflx")
+	if g.focus == "C06" {
+		g.pickForms()
+	}
 	g.op("new renom=1,tb=9,u=uA0,p=pA0%s tb=5,u=uB0,p=pB0%s", []string{"", ",ka=0", ",ci=50"}[r.intn(3)], []string{"", ",ucp=1", ",pw=0"}[r.intn(3)])
 	x1, x2, y := 16, 32, 176
 	p1, p2 := 2130706431, []int{2130706430, 100, 2130706431}[r.intn(3)]
@@ -649,7 +737,7 @@ func (g *vGenSess) renomPrflx() {
 			}
 		case x < 3 && !signalled:
 			signalled = true
-			g.op("addremote B 1 0 %d %d -", x2, p2)
+			g.op("addremote B 1 0 %d %d -%s", x2, p2, g.fm())
 		case x < 8:
 			if g.inflight > 0 {
 				k := g.inflight - 1 - r.intn(min(g.inflight, 3))
@@ -667,7 +755,7 @@ func (g *vGenSess) renomPrflx() {
 		}
 	}
 	if !signalled {
-		g.op("addremote B 1 0 %d %d -", x2, p2)
+		g.op("addremote B 1 0 %d %d -%s", x2, p2, g.fm())
 	}
 	for i := 0; i < 6; i++ {
 		for g.inflight > 0 {
